@@ -634,7 +634,8 @@ def matchOn (b : Branch) : Nat → List Char → Except Err Info
             | some [] => pure (b.infoOfId .null)
             | some (p :: _) => pure (b.infoOfId (.rev p))
           | .null => .error .internal
-          | .other _ => .error .noSuchRevision
+          -- the empty revision id is rejected earlier (InvalidRevisionId): out of scope
+          | .other nm => if nm.isEmpty then .error .unsupported else .error .noSuchRevision
         | some n =>
           match b.getRevId (n - 1) with
           | .ok id => pure ⟨some (n - 1), id⟩
